@@ -3,7 +3,8 @@ import json, random
 from collections import Counter
 import common, docrun, gen, pool, docs, e2e, drv, vocab
 
-THEOREMS = ["Cost.costs_append", "Cost.costs_flag", "Cost.saving_flag", "Cost.selection_frame", "Cost.selection_names"]
+THEOREMS = ["Cost.costs_append", "Cost.costs_flag", "Cost.saving_flag", "Cost.selection_frame", "Cost.selection_names", "Cost.gasAcc_le_static",
+            "Cost.gasAcc_eq_static"]
 
 
 def plain_items(text):
@@ -81,14 +82,15 @@ def run(tier):
     for o, (name, opts, bid, side, text, tool, toks) in zip(drv.batch(csv_reqs), csv_meta):
         c["csv-cost-comparisons"] += 1
         ref = o.split()
-        if any(x in toks.split() for x in ("SLOAD", "SSTORE", "E1:BALANCE", "E1:EXTCODESIZE", "E1:EXTCODEHASH")) or "X:EXTCODECOPY" in toks:
-            ref, tool = ref[1:], tool[1:]
+        # the tool prices a storage slot / an account that the block touched before as warm: Cost.gasAcc (4th number) is that accounting
+        ref = [ref[3], ref[1], ref[2]]
         if ref != [str(x) for x in tool]:
             violations.append({"kind": "push0-pricing-inconsistent", "input": name, "options": opts,
                                "what": "blocks.csv of %s under %s, %s side of %s (%s): tool prices (gas,bytes,len)=%s, reference with the same flag %s" % (name, opts, side, bid, text[:160], tool, o)})
     # (b) plain blocks: the emitted text must not contain PUSH0 when disabled; costs priced with the same flag on both sides
     blocks = gen.blocks(sd * 5 + 40, 200 if tier == "quick" else 3000) + ["PUSH1 0x0 PUSH1 0x0 ADD DUP1", "PUSH1 0x5 PUSH1 0x5 SUB", "DUP1 DUP1 XOR",
                                                                           "PUSH1 0x0 DUP2 MSTORE PUSH1 0x0 DUP1 SSTORE"]
+    blocks += gen.access_pair_corpus()[::5]      # warm/cold books: storage slots and accounts on the same operand
     # every spelling of a zero push, kept (nothing to optimize around it) and next to something that is optimized
     for z in ("PUSH1 0x0", "PUSH1 0x00", "PUSH1 0", "PUSH1 00", "PUSH2 0x0000", "PUSH32 0x" + "0" * 64, "PUSH0"):
         blocks += ["%s CALLDATALOAD %s SLOAD" % (z, z), "%s DUP2 MSTORE PUSH1 0x1 PUSH1 0x2 ADD" % z, "%s %s SUB %s" % (z, z, z)]
@@ -112,11 +114,9 @@ def run(tier):
         c["cost-comparisons"] += 1
         toks = e["in_tokens"] if side == "in" else e["out_tokens"]
         ref = o.split()
-        # the tool's block-level gas counts repeated storage/account accesses as warm: gas is compared only where that cannot matter
-        if any(x in toks.split() for x in ("SLOAD", "SSTORE", "E1:BALANCE", "E1:EXTCODESIZE", "E1:EXTCODEHASH")) or "X:EXTCODECOPY" in toks:
-            ref, toolv = ref[1:], [str(x) for x in tool][1:]
-        else:
-            toolv = [str(x) for x in tool]
+        # the tool's block-level gas counts repeated storage/account accesses as warm: Cost.gasAcc (4th number) models that accounting
+        ref = [ref[3], ref[1], ref[2]]
+        toolv = [str(x) for x in tool]
         if ref != toolv:
             violations.append({"kind": "push0-pricing-inconsistent", "input": text, "options": opts,
                                "what": "%s side of %s under %s: tool prices (gas,bytes,len)=%s, reference with the same flag %s" % (side, text, opts, tool, o)})
